@@ -375,10 +375,14 @@ def finish(ctx, module, exc=None):
         print("  sweep %-32s executions=%-9d %.1fs" % (s["name"], s["executions"], s["wall_s"]))
     for l in lines:
         print(l)
-    if exc is not None:
+    if exc is not None and not unknown:
         print("HARNESS-ERROR: %s" % exc)
         return EXIT_HARNESS
     if unknown:
+        if exc is not None:
+            # e.g. NONDETERMINISM caused by state that the tree under test leaks from one case into the next:
+            # the violations found so far are real and are what gets reported
+            print("note: the run also ended with a harness error: %s" % str(exc)[:300])
         # a violation takes precedence over a failed vacuity guard (a broken tree often also starves a guard)
         for w in failed_guards:
             print("note: vacuity guard not met on this tree: %s" % w)
